@@ -66,15 +66,80 @@ theorem C04_installed_while_subscribed (ops : List Op) (s : State) (he : exec re
 /-- **old disposition restored**: take any reachable state s0 in which nobody is subscribed to g, continue with
 any history (subscriptions by several events on several loops, re-initialisations, failing enables, deliveries,
 passes with callbacks that change subscriptions, sigaction on OTHER signals) to any state s1 in which again nobody
-is subscribed to g: the kernel disposition of g — handler, SA_SIGINFO, flags, mask — is exactly what it was in s0. -/
+is subscribed to g: the kernel disposition of g — handler, SA_SIGINFO, every flag bit (SA_RESTART, SA_NODEFER, SA_RESETHAND,
+SA_ONSTACK, SA_NOCLDSTOP, SA_NOCLDWAIT), the whole 64-bit mask — is exactly what it was in s0.  Round 5: the only other thing
+that changes an application's disposition is the KERNEL's answer to SA_RESETHAND on a delivery that goes directly to the
+application's handler (`kresets`: none happened; `C04_chained_delivery_never_resets`: a delivery while somebody is subscribed
+never is one, however many there are). -/
 theorem C04_disposition_restored (pre mid : List Op) (s0 s1 : State) (g : Nat)
     (h0 : exec repaired init pre = some s0) (h1 : exec repaired s0 mid = some s1)
     (hno0 : ∀ e, ¬ Subscribed s0 e g) (hno1 : ∀ e, ¬ Subscribed s1 e g)
-    (huser : ∀ d, Op.setDisp g d ∉ mid) : s1.os g = s0.os g := by
+    (huser : ∀ d, Op.setDisp g d ∉ mid) (hk : kresets s0 g mid = 0) : s1.os g = s0.os g := by
   have hi0 := C04_reachable_inv pre s0 h0
   have hi1 := exec_inv s0 mid hi0 s1 h1
   rw [← baseDisp_eq_os_of_no_subscriber s0 g hi0 hno0, ← baseDisp_eq_os_of_no_subscriber s1 g hi1 hno1]
-  exact baseDisp_exec s0 mid g hi0 huser s1 h1
+  exact baseDisp_exec s0 mid g hi0 huser hk s1 h1
+
+/-- **SA_RESETHAND on the saved disposition**: while tbox's handler is installed for g (⇔ somebody is subscribed,
+`C04_installed_while_subscribed`) no delivery of any signal is a kernel reset of g's handler, the saved disposition stays
+what it was and the saved handler is invoked by EVERY delivery (`C04_chain_old_handler`) — the statement's "a handler that
+was installed before the first subscription is still invoked"; the kernel alone would have run it once and then reset it. -/
+theorem C04_chained_delivery_never_resets (ops : List Op) (s : State) (_he : exec repaired init ops = some s) (g g' : Nat)
+    (wf : List Nat) (hk : (s.os g).kind = .tbox) :
+    directReset s g (.raiseW g' wf) = false ∧ directReset s g (.raise g') = false ∧
+    baseDisp (raiseW s g' wf).1 g = baseDisp s g := by
+  have h1 : directReset s g (.raiseW g' wf) = false := by simp [directReset, hk]
+  have h2 : directReset s g (.raise g') = false := by simp [directReset, hk]
+  exact ⟨h1, h2, baseDisp_raiseW s g' g wf h1⟩
+
+/-- what the kernel does on its own (nobody subscribed): a delivery to a handler installed with SA_RESETHAND runs it and
+resets the HANDLER to SIG_DFL, keeping flags and mask (Linux); without the flag nothing changes -/
+theorem C04_direct_delivery_resethand (s : State) (g h : Nat) (wf : List Nat) (hk : (s.os g).kind = .handler h) :
+    (raiseW s g wf).1.os g = (if (s.os g).resetHand then { s.os g with kind := .dfl } else s.os g) ∧
+    (raiseW s g wf).1.calls = (h, g) :: s.calls := by
+  unfold raiseW
+  simp only [hk, upd_apply, ↓reduceIte, kReset, and_true]
+
+/-- chaining differs from the kernel's own SA_RESETHAND (as the statement demands): handler 1 with SA_RESETHAND on signal 1.
+Directly: the first delivery runs it, the second meets SIG_DFL.  With a subscriber: three deliveries run it three times,
+and after the last unsubscription the disposition is the original one, SA_RESETHAND included -/
+theorem C04_resethand_chain_counterexample :
+    let d : Disp := { kind := .handler 1, flags := 4 }
+    let direct : List Op := [.setDisp 1 d, .raise 1]
+    let chained : List Op := [.setDisp 1 d, .newEv 0 [], .init 0 [1] false, .enable 0, .raise 1, .raise 1, .raise 1, .disable 0]
+    ((direct.foldl (step repaired) init).os 1 = { d with kind := .dfl } ∧ (direct.foldl (step repaired) init).calls = [(1, 1)] ∧
+     (raise (direct.foldl (step repaired) init) 1).2 = .killed) ∧
+    ((chained.foldl (step repaired) init).os 1 = d ∧ (chained.foldl (step repaired) init).calls = [(1, 1), (1, 1), (1, 1)] ∧
+     (exec repaired init chained).isSome = true ∧ kresets init 1 chained = 0 ∧ kresets init 1 direct = 1) := by
+  refine ⟨⟨?_, ?_, ?_⟩, ?_, ?_, ?_, ?_, ?_⟩ <;> decide
+
+/-- **what the chained handler sees** (outside the statement, recorded): installed directly the kernel blocks g unless
+SA_NODEFER, blocks the saved `sa_mask` and switches to the alternate stack if SA_ONSTACK; chained under tbox's handler
+(SA_SIGINFO only, empty mask) g is always blocked, the mask is not applied and the handler runs on the interrupted stack -/
+theorem C04_chain_env_counterexample :
+    let d : Disp := { kind := .handler 1, flags := 2 + 8, mask := 2 ^ 11 + 2 ^ 33 }
+    let pre : List Op := [.setDisp 1 d]
+    let sub : List Op := pre ++ [.newEv 0 [], .init 0 [1] false, .enable 0]
+    handlerEnv (pre.foldl (step repaired) init) 1 = (false, 2 ^ 11 + 2 ^ 33, true) ∧
+    handlerEnv (sub.foldl (step repaired) init) 1 = (true, 0, false) ∧
+    baseDisp (sub.foldl (step repaired) init) 1 = d := by
+  refine ⟨?_, ?_, ?_⟩ <;> decide
+
+/-- **the mask as the kernel keeps it** (`sigaction` on 64-bit `sa_mask`): every bit but SIGKILL's (8) and SIGSTOP's (18) is
+kept, those two are cleared, nothing beyond bit 63 exists — the saved copy restored by the last unsubscription is this one -/
+theorem C04_mask_kernel (m : Nat) :
+    (∀ i, i < 64 → i ≠ 8 → i ≠ 18 → (normMask m).testBit i = m.testBit i) ∧
+    (normMask m).testBit 8 = false ∧ (normMask m).testBit 18 = false ∧ normMask m < 2 ^ 64 ∧
+    normMask (normMask m) = normMask m := by
+  have hbits : ∀ i, i < 64 → i ≠ 8 → i ≠ 18 → maskable.testBit i = true := by decide
+  refine ⟨fun i hi h8 h18 => ?_, ?_, ?_, ?_, ?_⟩
+  · unfold normMask; rw [Nat.testBit_and, hbits i hi h8 h18, Bool.and_true]
+  · unfold normMask; rw [Nat.testBit_and]; have : maskable.testBit 8 = false := by decide
+    rw [this, Bool.and_false]
+  · unfold normMask; rw [Nat.testBit_and]; have : maskable.testBit 18 = false := by decide
+    rw [this, Bool.and_false]
+  · unfold normMask; exact Nat.lt_of_le_of_lt Nat.and_le_right (by decide)
+  · unfold normMask; rw [Nat.and_assoc, Nat.and_self]
 
 /-- **the pre-existing handler is still invoked, exactly once per delivery**: whatever the subscription state and
 whatever the kernel answers to the handler's pipe writes (`wf`: full pipe, EINTR, EIO …), a
@@ -137,8 +202,9 @@ theorem raiseW_pipe_quiescent (s : State) (h : Inv s) (hq : ∀ l, s.pipe l = []
   · simp [hk, hq]
   · simp [hk, hq]
   · show appendPipes s.pipe g ((ctxOf s g).fds.filter (wrOk s wf)) l = _
-    simp only [appendPipes, hq, List.nil_append, hk, true_and, List.mem_filter, wrOk, List.length_nil, hcap,
-      decide_true, Bool.and_true, Bool.not_eq_eq_eq_not, Bool.not_true, List.contains_eq_mem, decide_eq_false_iff_not]
+    simp only [appendPipes, hq, List.nil_append, hk, true_and, List.mem_filter, wrOk, hd, List.length_nil, hcap,
+      ↓reduceIte, Nat.add_zero, decide_true, Bool.and_true, Bool.not_eq_eq_eq_not, Bool.not_true, List.contains_eq_mem,
+      decide_eq_false_iff_not]
     rfl
 
 /-- **every subscriber exactly once, on its own loop**: in any reachable quiescent state (no delivery pending in any
@@ -208,7 +274,7 @@ theorem C04_burst_pipe (ops : List Op) (s : State) (_he : exec repaired init ops
     (raises s g n).pipe l =
       List.replicate (if (s.os g).kind = .tbox ∧ l ∈ fdsOf s g then min n (capOf s) else 0) g := by
   refine ⟨exec_raises g n s, ?_⟩
-  have := raises_pipe g n s 0 l (by rw [hq]; split <;> simp)
+  have := raises_pipe g n s 0 l (by simp [hd, hq]) (by rw [hq]; split <;> simp)
   simpa using this
 
 -- OPEN (full statement, false): after ANY burst every delivery is pending for every subscribed loop:
@@ -299,6 +365,83 @@ theorem C04_cross_loop_script_example :
     ((ops.foldl (step repaired) init).cbs.map (fun c => (c.ev, c.loop))) = [(0, 0)] ∧
     fdsOf (ops.foldl (step repaired) init) 1 = [0] ∧ (ops.foldl (step repaired) init).hasPipe 1 = false := by decide
 
+/-! ### round 5: the consumed part of the pipe's first page; state-derived histories -/
+
+/-- **the handler's write, exactly**: loop l's pipe takes the number iff tbox's handler is installed for g, l is registered,
+the kernel does not answer with an injected error and `hd + pending < capacity` — `hd` numbers of the first page are
+already read and their room is not available again until the whole page is (a pipe is a ring of pages) -/
+theorem C04_head_page_capacity (s : State) (g : Nat) (wf : List Nat) (l : Nat) :
+    (raiseW s g wf).1.pipe l =
+      if (s.os g).kind = .tbox ∧ l ∈ fdsOf s g ∧ l ∉ wf ∧ hd s l + (s.pipe l).length < capOf s then s.pipe l ++ [g]
+      else s.pipe l := by
+  unfold raiseW
+  split <;> rename_i hk
+  · simp [hk]
+  · simp [hk]
+  · simp [hk]
+  · show appendPipes s.pipe g ((ctxOf s g).fds.filter (wrOk s wf)) l = _
+    simp only [appendPipes, List.mem_filter, wrOk, List.contains_eq_mem, Bool.and_eq_true, Bool.not_eq_eq_eq_not, Bool.not_true,
+      decide_eq_false_iff_not, decide_eq_true_eq, hk, true_and]
+    rfl
+
+/-- a one-page pipe filled by 1024 deliveries, one `read()` of 10 numbers, then EINTR -/
+def headOps : List Op :=
+  [.setCap true, .newEv 0 [], .init 0 [1] false, .enable 0] ++ List.replicate 1024 (.raise 1) ++ [.passC 0 [] [some 10, none]]
+
+-- OPEN (full statement, false): a delivery is pending for every subscribed loop whenever fewer than `capOf` are pending
+set_option maxRecDepth 100000 in
+/-- **fewer than the capacity pending, and still dropped**: 1014 of 1024 numbers pending, 10 consumed from the only page: the
+next delivery is lost for this loop (replayed: corpus/C04/head_page.ops) -/
+theorem C04_consumed_head_counterexample :
+    (exec repaired init headOps).isSome = true ∧
+    ((headOps.foldl (step repaired) init).pipe 0).length = 1014 ∧ hd (headOps.foldl (step repaired) init) 0 = 10 ∧
+    ((raise (headOps.foldl (step repaired) init) 1).1.pipe 0).length = 1014 := by decide +kernel
+
+/-- **two events of one loop on one signal, one leaves** (count bookkeeping): the other one is still subscribed, still in
+its loop's subscriber set, the loop is still registered and tbox's handler still installed — so `C04_every_subscriber_once`
+(which holds in every reachable state) still gives it exactly one callback per delivery.  Same for a destroyed sibling. -/
+theorem C04_sibling_keeps_subscription (ops : List Op) (s : State) (he : exec repaired init ops = some s) (e1 e2 g : Nat)
+    (hne : e2 ≠ e1) (hs : Subscribed s e2 g) :
+    (Subscribed (disable s e1).1 e2 g ∧ e2 ∈ subsOf (disable s e1).1 ((s.evs e2).loop) g ∧
+      (s.evs e2).loop ∈ fdsOf (disable s e1).1 g ∧ ((disable s e1).1.os g).kind = .tbox) ∧
+    (Subscribed (destroy s e1).1 e2 g ∧ e2 ∈ subsOf (destroy s e1).1 ((s.evs e2).loop) g ∧
+      (s.evs e2).loop ∈ fdsOf (destroy s e1).1 g ∧ ((destroy s e1).1.os g).kind = .tbox) := by
+  have h := C04_reachable_inv ops s he
+  have key : ∀ s', Inv s' → s'.evs e2 = s.evs e2 →
+      Subscribed s' e2 g ∧ e2 ∈ subsOf s' ((s.evs e2).loop) g ∧ (s.evs e2).loop ∈ fdsOf s' g ∧ (s'.os g).kind = .tbox := by
+    intro s' hi hev
+    have hs' : Subscribed s' e2 g := by unfold Subscribed; rw [hev]; exact hs
+    have hm : e2 ∈ subsOf s' ((s.evs e2).loop) g := (hi.mem _ g e2).2 ⟨hs'.1, hs'.2, by rw [hev]⟩
+    have hfd := (hi.core.fdsIff g _).2 (ne_nil_iff_exists_mem.2 ⟨e2, hm⟩)
+    exact ⟨hs', hm, hfd, (hi.core.osTbox g).2 (ne_nil_iff_exists_mem.2 ⟨_, hfd⟩)⟩
+  refine ⟨key _ (disable_inv s e1 h) (disable_evs_other s e1 e2 hne), key _ (destroy_inv s e1 h) ?_⟩
+  unfold destroy
+  by_cases ha : (s.evs e1).alive = true
+  · simp only [ha, Bool.not_true, Bool.false_eq_true, ↓reduceIte, setEv, upd_apply, hne]
+    exact disable_evs_other s e1 e2 hne
+  · simp only [ha, Bool.not_false, ↓reduceIte]
+
+/-- **histories on one object that revisit its cached state** (each replayed by the generator's state-derived family):
+(1) `enable()` twice, `disable()` once: nothing stays subscribed (a second enable does not need a second disable);
+(2) `initialize()` with the SAME set and mode on an enabled event disables it (no "unchanged, skip");
+(3) a one-shot event whose own callback does enable → disable → enable is subscribed again afterwards and fires on the next
+delivery too; (4) two events of one loop on one signal, one disabled: the other one gets the next delivery -/
+theorem C04_state_derived_histories :
+    let pre : List Op := [.setDisp 1 { kind := .handler 2, flags := 4 + 1, mask := 2 ^ 63 + 5 }, .newEv 0 [], .init 0 [1] false, .enable 0]
+    let twice := pre ++ [.enable 0, .disable 0]
+    let same := pre ++ [.init 0 [1] false]
+    let reent : List Op := [.newEv 0 [.enable 0, .disable 0, .enable 0], .init 0 [1] true, .enable 0, .raise 1, .pass 0 [],
+                            .raise 1, .pass 0 []]
+    let sib := pre ++ [.newEv 0 [], .init 1 [1] false, .enable 1, .disable 0, .raise 1, .pass 0 []]
+    ((twice.foldl (step repaired) init).os 1 = { kind := .handler 2, flags := 5, mask := 2 ^ 63 + 5 } ∧
+      fdsOf (twice.foldl (step repaired) init) 1 = [] ∧ (twice.foldl (step repaired) init).hasPipe 0 = false) ∧
+    (((same.foldl (step repaired) init).evs 0).enabled = false ∧ ((same.foldl (step repaired) init).os 1).kind = .handler 2) ∧
+    (((reent.foldl (step repaired) init).evs 0).enabled = true ∧ cbCount (reent.foldl (step repaired) init) 0 1 = 2 ∧
+      (exec repaired init reent).isSome = true) ∧
+    (cbCount (sib.foldl (step repaired) init) 1 1 = 1 ∧ cbCount (sib.foldl (step repaired) init) 0 1 = 0 ∧
+      (sib.foldl (step repaired) init).calls = [(2, 1)]) := by
+  refine ⟨⟨?_, ?_, ?_⟩, ⟨?_, ?_⟩, ⟨?_, ?_, ?_⟩, ?_, ?_, ?_⟩ <;> decide
+
 /-! ### the code as found: three concrete histories (each replayed on /repo by the check) -/
 
 /-- (C04-01) `initialize` on an enabled event -/
@@ -370,6 +513,13 @@ example : (passes (raise demoState 1).1 [(1, []), (0, [2, 0])]).calls = [(1, 1)]
 example : ((demo ++ [Op.raise 1, Op.pass 0 [], Op.init 0 [2] false, Op.destroy 1]).foldl (step repaired) init).os 1 =
     { kind := .handler 1, siginfo := true, flags := 1, mask := 5 } := by decide
 example : (exec repaired init (demo ++ [Op.raise 1, Op.pass 0 [], Op.init 0 [2] false, Op.destroy 1])).isSome = true := by decide
+/-- the same with SA_RESETHAND on the user's handler: three chained deliveries, no kernel reset, restored whole -/
+example : let pre : List Op := [.setDisp 1 { kind := .handler 1, siginfo := true, flags := 4 + 2, mask := 2 ^ 40 }]
+    let mid : List Op := [.newEv 0 [], .init 0 [1] false, .enable 0, .raise 1, .raise 1, .pass 0 [], .raise 1, .destroy 0]
+    kresets (pre.foldl (step repaired) init) 1 mid = 0 ∧ (exec repaired (pre.foldl (step repaired) init) mid).isSome = true ∧
+    ((pre ++ mid).foldl (step repaired) init).os 1 = { kind := .handler 1, siginfo := true, flags := 6, mask := 2 ^ 40 } ∧
+    ((pre ++ mid).foldl (step repaired) init).calls.length = 3 := by
+  refine ⟨?_, ?_, ?_, ?_⟩ <;> decide
 
 end Tbox.C04
 
